@@ -215,13 +215,7 @@ impl SequenceMaterializer {
             }
 
             // Extract value based on column type
-            if !column_values.is_typed() {
-                // String (VarBytes) column: keep the stored text verbatim. Probing the
-                // numeric getters first would turn a string like "17" into a number.
-                if let Some(str_val) = column_values.get_str_at(row_idx) {
-                    builder.add_field_str(field, str_val);
-                }
-            } else if let Some(i64_val) = column_values.get_i64_at(row_idx) {
+            if let Some(i64_val) = column_values.get_i64_at(row_idx) {
                 builder.add_field_i64(field, i64_val);
             } else if let Some(u64_val) = column_values.get_u64_at(row_idx) {
                 builder.add_field_i64(field, u64_val as i64);
